@@ -24,6 +24,18 @@ theorem P.runSrc_flat {α : Type} (p : P α) (s : Src) :
     · simp only [hn, if_false]
       exact ⟨trivial, rfl⟩
 
+theorem runFlat_length_le {α : Type} (p : P α) (bs : Bytes) : (p.runFlat bs).2.length ≤ bs.length := by
+  induction p generalizing bs with
+  | done a => simp [P.runFlat]
+  | read n e k ih =>
+    simp only [P.runFlat]
+    by_cases hn : n ≤ bs.length
+    · simp only [hn, if_true]
+      have := ih (bs.take n) (bs.drop n)
+      simp only [List.length_drop] at this
+      omega
+    · simp [hn]
+
 /-! ### Small facts -/
 
 theorem isPrefixOf_self_append (w x : Bytes) : w.isPrefixOf (w ++ x) = true := by
@@ -722,5 +734,110 @@ theorem build_holds (c : IPText) (hrt : c.RT) (host : Text) (port : Nat) (payloa
     have hw : host.length ≤ 255 ∧ port < 65536 := by simpa [BuildWF] using hwf
     rw [build_parse c hrt host port payload hw.2 (fun _ => hw.1)]
     simp [sameDest_rebuilt c hrt host]
+
+/-! ### The reference decoders invert the grammar encoders -/
+
+theorem take_append_len {α : Type} (a b : List α) (n : Nat) (h : a.length = n) : (a ++ b).take n = a := by
+  subst h; simp
+
+theorem drop_append_len {α : Type} (a b : List α) (n : Nat) (h : a.length = n) : (a ++ b).drop n = b := by
+  subst h; simp
+
+theorem decAddr_enc (a : Addr) (hwf : a.WF = true) (rest : Bytes) :
+    decAddr a.atyp (a.enc ++ rest) = .ok a rest := by
+  cases a with
+  | ip4 b =>
+    have hb : b.length = 4 := by simpa [Addr.WF] using hwf
+    simp [decAddr, Addr.atyp, Addr.enc, hb, take_append_len b rest 4 hb, drop_append_len b rest 4 hb]
+  | ip6 b =>
+    have hb : b.length = 16 := by simpa [Addr.WF] using hwf
+    simp [decAddr, Addr.atyp, Addr.enc, hb, take_append_len b rest 16 hb, drop_append_len b rest 16 hb]
+  | dom b =>
+    have hb : b.length ≤ 255 := by simpa [Addr.WF] using hwf
+    have ht : (u8 b.length).toNat = b.length := toNat_u8 _ (by omega)
+    simp [decAddr, Addr.atyp, Addr.enc, ht]
+
+theorem encPort_decode (p : Nat) (hp : p < 65536) (rest : Bytes) :
+    ∃ p1 p2 : Byte, encPort p ++ rest = p1 :: p2 :: rest ∧ p1.toNat * 256 + p2.toNat = p := by
+  refine ⟨u8 (p / 256), u8 (p % 256), rfl, ?_⟩
+  rw [toNat_u8 _ (by omega), toNat_u8 _ (by omega)]
+  omega
+
+theorem decodeReq_enc (pf : Profile) (off : Nat) (pre : Bytes) (r : Request) (hwf : r.WF = true)
+    (hc : pf.cmds.contains r.cmd = true) (rest : Bytes) :
+    decodeReq pf off pre (r.enc ++ rest) = .accept r.cmd r.addr r.port (off + r.enc.length) pre := by
+  have hw : r.cmd < 256 ∧ r.addr.WF = true ∧ r.port < 65536 := by
+    simpa [Request.WF, and_assoc] using hwf
+  obtain ⟨p1, p2, hpe, hpv⟩ := encPort_decode r.port hw.2.2 rest
+  have hcmd : (u8 r.cmd).toNat = r.cmd := toNat_u8 _ hw.1
+  have hat : (u8 r.addr.atyp).toNat = r.addr.atyp := toNat_u8 _ (by cases r.addr <;> simp [Addr.atyp])
+  have henc : r.enc ++ rest = 5 :: u8 r.cmd :: r.rsv :: u8 r.addr.atyp :: (r.addr.enc ++ (encPort r.port ++ rest)) := by
+    simp [Request.enc]
+  rw [henc]
+  simp only [decodeReq, hcmd, hat, hc, show (5 : Byte).toNat = 5 from rfl, ne_eq, not_true_eq_false, if_false,
+    decAddr_enc r.addr hw.2.1, hpe, hpv]
+  simp [Request.enc, encPort]
+  omega
+
+theorem decodeUDP_enc (d : Datagram) (hwf : d.WF = true) :
+    decodeUDP d.enc = .accept d.addr d.port d.payload := by
+  have hw : d.addr.WF = true ∧ d.port < 65536 := by simpa [Datagram.WF] using hwf
+  obtain ⟨p1, p2, hpe, hpv⟩ := encPort_decode d.port hw.2 d.payload
+  have hat : (u8 d.addr.atyp).toNat = d.addr.atyp := toNat_u8 _ (by cases d.addr <;> simp [Addr.atyp])
+  have henc : d.enc = d.rsv1 :: d.rsv2 :: 0 :: u8 d.addr.atyp :: (d.addr.enc ++ (encPort d.port ++ d.payload)) := by
+    simp [Datagram.enc]
+  rw [henc]
+  simp [decodeUDP, hat, decAddr_enc d.addr hw.1, hpe, hpv]
+
+theorem decodeNeg_enc (pf : Profile) (hpf : pf.creds = none) (methods : Bytes) (hm1 : 0 < methods.length)
+    (hm2 : methods.length ≤ 255) (hm : methods.contains (u8 pf.method) = true) (r : Request)
+    (hwf : r.WF = true) (hc : pf.cmds.contains r.cmd = true) (rest : Bytes) :
+    decodeNeg pf (encGreeting methods ++ (r.enc ++ rest)) =
+      .accept r.cmd r.addr r.port ((encGreeting methods).length + r.enc.length) [5, u8 pf.method] := by
+  have hn : (u8 methods.length).toNat = methods.length := toNat_u8 _ (by omega)
+  have hn0 : ¬ methods.length = 0 := by omega
+  simp only [encGreeting, List.cons_append, decodeNeg, hn, hn0, show (5 : Byte).toNat = 5 from rfl, ne_eq,
+    not_true_eq_false, if_false, List.length_append, take_append_len methods _ _ rfl,
+    drop_append_len methods _ _ rfl, hm, hpf, List.length_cons]
+  have hlt : ¬ (methods.length + (r.enc.length + rest.length) < methods.length) := by omega
+  simp only [hlt, if_false, decodeReq_enc pf _ _ r hwf hc rest]
+  congr 1
+  omega
+
+theorem decodeNeg_enc_auth (pf : Profile) (user pass : Text) (hpf : pf.creds = some (user, pass))
+    (hu : user.length ≤ 255) (hpl : pass.length ≤ 255)
+    (methods : Bytes) (hm1 : 0 < methods.length)
+    (hm2 : methods.length ≤ 255) (hm : methods.contains (u8 pf.method) = true) (r : Request)
+    (hwf : r.WF = true) (hc : pf.cmds.contains r.cmd = true) (rest : Bytes) :
+    decodeNeg pf (encGreeting methods ++ (encAuth user pass ++ (r.enc ++ rest))) =
+      .accept r.cmd r.addr r.port ((encGreeting methods).length + (encAuth user pass).length + r.enc.length)
+        [5, u8 pf.method, 1, 0] := by
+  have hn : (u8 methods.length).toNat = methods.length := toNat_u8 _ (by omega)
+  have hn0 : ¬ methods.length = 0 := by omega
+  have hul : (u8 user.length).toNat = user.length := toNat_u8 _ (by omega)
+  have hpll : (u8 pass.length).toNat = pass.length := toNat_u8 _ (by omega)
+  simp only [encGreeting, List.cons_append, decodeNeg, hn, hn0, show (5 : Byte).toNat = 5 from rfl, ne_eq,
+    not_true_eq_false, if_false, List.length_append, take_append_len methods _ _ rfl,
+    drop_append_len methods _ _ rfl, hm, hpf, List.length_cons]
+  have hlt : ¬ (methods.length + ((encAuth user pass).length + (r.enc.length + rest.length)) < methods.length) := by
+    omega
+  simp only [hlt, if_false]
+  have hauth : encAuth user pass ++ (r.enc ++ rest) =
+      1 :: u8 user.length :: (user ++ (u8 pass.length :: (pass ++ (r.enc ++ rest)))) := by
+    simp [encAuth]
+  rw [hauth]
+  have hg : byteAt (user ++ (u8 pass.length :: (pass ++ (r.enc ++ rest)))) user.length = pass.length := by
+    simp [byteAt, List.getD_eq_getElem?_getD, hpll]
+  have hd : List.drop (user.length + 1) (user ++ (u8 pass.length :: (pass ++ (r.enc ++ rest)))) =
+      pass ++ (r.enc ++ rest) := by
+    rw [← List.drop_drop, drop_append_len user _ _ rfl]; rfl
+  simp only [decodeAuth, hul, show (1 : Byte).toNat = 1 from rfl, ne_eq, not_true_eq_false, if_false, hg, hd,
+    take_append_len user _ _ rfl, take_append_len pass _ _ rfl, drop_append_len pass _ _ rfl, and_self, if_true,
+    List.length_append, List.length_cons]
+  have c1 : ¬ (user.length + (pass.length + (r.enc.length + rest.length) + 1) < user.length + 1) := by omega
+  have c2 : ¬ (pass.length + (r.enc.length + rest.length) < pass.length) := by omega
+  simp only [c1, c2, if_false, decodeReq_enc pf _ _ r hwf hc rest]
+  simp [encAuth]
+  omega
 
 end Tunnox.C20
